@@ -435,12 +435,12 @@ theorem fsWrite_other_files_untouched (fs : List (Str × Table α)) (outs : List
     | cons e es ihe =>
       obtain ⟨k, v⟩ := e
       by_cases hk : k = f.name
-      · have : (n == k) = false := by rw [hk]; exact hb
-        simp [List.filter_cons, hk, List.lookup_cons, this, ihe]
+      · subst hk
+        simp only [List.filter_cons, bne_self_eq_false, Bool.false_eq_true, if_false, ihe, List.lookup_cons, hb]
       · by_cases hn : n = k
-        · subst hn; simp [List.filter_cons, hk, List.lookup_cons]
+        · subst hn; simp [hk]
         · have : (n == k) = false := by simpa using hn
-          simp [List.filter_cons, hk, List.lookup_cons, this, ihe]
+          simp [hk, List.lookup_cons, this, ihe]
 
 /-! ### (5) reading back: `table_to_source_list` inverts the table construction -/
 
